@@ -153,6 +153,12 @@ func exploreProgram(r *report.R, i int, level string, bound int, expected string
 		outcomes[out]++
 	}
 
+	shardTag := ""
+	if sh := os.Getenv("VERIF_SHARD"); sh != "" {
+		fmt.Sscanf(sh, "%d/%d", &sc.ShardIndex, &sc.ShardCount)
+		shardTag = "#" + sh
+	}
+
 	if derr := sc.Determinism(); derr != nil {
 		report.Fatal("%v", derr)
 	}
@@ -176,7 +182,7 @@ func exploreProgram(r *report.R, i int, level string, bound int, expected string
 	}
 
 	r.Add("states", int64(res.Schedules))
-	r.Set("scenario:"+sc.Name, map[string]any{"schedules": res.Schedules, "preemption_bound": bound, "points_min": res.MinPoints, "points_max": res.MaxPoints, "distinct_outputs": len(outcomes), "capped": res.Capped})
+	r.Set("scenario:"+sc.Name+shardTag, map[string]any{"schedules": res.Schedules, "preemption_bound": bound, "points_min": res.MinPoints, "points_max": res.MaxPoints, "distinct_outputs": len(outcomes), "capped": res.Capped})
 	r.Sample(map[string]any{"program": p.Name, "granularity": level, "preemption_bound": bound, "schedules": res.Schedules})
 }
 
@@ -209,6 +215,8 @@ type job struct {
 	prog  int
 	level string
 	bound int
+	shard int
+	of    int
 }
 
 func main() {
@@ -286,7 +294,11 @@ func main() {
 			sb--
 		}
 
-		jobs = append(jobs, job{i, "sync", sb}, job{i, "instr", instrBound})
+		jobs = append(jobs, job{i, "instr", instrBound, 0, 1})
+
+		for sh := 0; sh < 3; sh++ {
+			jobs = append(jobs, job{i, "sync", sb, sh, 3})
+		}
 	}
 
 	type res struct {
@@ -305,6 +317,10 @@ func main() {
 
 		cmd := exec.Command(os.Args[0], "job", strconv.Itoa(j.prog), j.level, strconv.Itoa(j.bound), expf, part)
 		cmd.Env = append(os.Environ(), "GOMAXPROCS=2")
+		if j.of > 1 {
+			cmd.Env = append(cmd.Env, fmt.Sprintf("VERIF_SHARD=%d/%d", j.shard, j.of))
+		}
+
 		out, err := cmd.CombinedOutput()
 		results[k] = res{part, err, out}
 	})
